@@ -693,3 +693,46 @@ Proof.
            end. discriminate.
   - eexists. split; [vm_compute; reflexivity|]. repeat split.
 Qed.
+
+(** ------------------------------------------------------------ no half-unit caveat off the aromatic atoms *)
+Lemma sum_orders_even l b : sum_orders l = Ok b ->
+  (forall wa, In wa l -> exists h, order_half (snd wa) = Ok h /\ Z.even h = true) -> Z.even b = true.
+Proof.
+  revert b. induction l as [|[w d] l IH]; intros b H Hall; [cbn in H; inversion H; reflexivity|].
+  cbn [sum_orders] in H. destruct (Hall (w, d) (or_introl eq_refl)) as (h & Eh & Ev). cbn [snd] in Eh. rewrite Eh in H.
+  cbn [bind] in H. destruct (sum_orders l) as [s|] eqn:Es; cbn [bind] in H; [|discriminate]. inversion H; subst b.
+  rewrite Z.even_add, Ev, (IH s eq_refl); [reflexivity|]. intros wa Hin. apply Hall. now right.
+Qed.
+Lemma arom_contract_even g k n b : arom_contractb g = true -> gfind k g = Some n -> is_arom (na n) = false ->
+  sum_orders (nadj n) = Ok b -> Z.even b = true.
+Proof.
+  intros C G A S. unfold arom_contractb in C. rewrite forallb_forall in C. specialize (C n (gfind_In _ _ _ G)).
+  rewrite forallb_forall in C. apply (sum_orders_even _ _ S). intros wa Hin. specialize (C wa Hin).
+  destruct (order_half (snd wa)) as [h|]; [|discriminate]. exists h. split; [reflexivity|].
+  rewrite A in C. cbn [andb] in C. rewrite orb_false_r in C. exact C.
+Qed.
+
+(** [rebuild_valence_exact]: under the aromaticity contract (a 1.5 order only between two aromatic atoms,
+    checked on every recorded transcript) the property's clause holds WITHOUT the half-unit caveat for every
+    atom that is not flagged aromatic: if its bonds fit within its largest valence, it receives exactly
+    (least fitting valence - bonds) hydrogens and its bond orders then add up to that valence. *)
+Theorem rebuild_valence_exact ca g1 g' k n val b :
+  NoDup (node_keys g1) -> closed_g g1 -> noself_g g1 -> (forall i m, gfind i g1 = Some m -> no_rs m) ->
+  arom_contractb g1 = true -> rebuild_after_car false ca g1 = Ok g' ->
+  gfind k g1 = Some n -> is_H (na n) = false -> is_arom (na n) = false ->
+  valence_of (na n) = Ok val -> sum_orders (nadj n) = Ok b -> fits val b ->
+  exists v idxs n', least_fitting val b v /\ gfind k g' = Some n' /\
+    nadj n' = nadj n ++ map (fun j => (j, h_edge_attrs)) idxs /\
+    2 * Z.of_nat (length idxs) = 2 * v - b /\ sum_orders (nadj n') = Ok (2 * v) /\
+    forall j, In j idxs -> exists h, gfind j g' = Some h /\ nadj h = [(k, h_edge_attrs)] /\ is_H (na h) = true.
+Proof.
+  intros Hnd Hcl Hns Hrs C H G EH EA Ev Es Hf.
+  destruct (rebuild_end_to_end ca g1 g' Hnd Hcl Hns Hrs H) as (Heavy & _ & _).
+  destruct (Heavy k n G EH) as (val' & b' & idxs & n' & Ev' & Es' & Len & _ & _ & G' & Adj & _ & Hs).
+  rewrite Ev in Ev'. inversion Ev'; subst val'. rewrite Es in Es'. inversion Es'; subst b'.
+  pose proof (arom_contract_even g1 k n b C G EA Es) as Even.
+  destruct (rebuild_valence_sum (na n) val b idxs (nadj n') (nadj n) Ev Hf Es Len Adj) as (v & HL & He & _).
+  destruct (He Even) as [Cnt Sum]. exists v, idxs, n'.
+  split; [exact HL|]. split; [exact G'|]. split; [exact Adj|]. split; [exact Cnt|]. split; [exact Sum|].
+  intros j Hj. destruct (Hs j Hj) as (h & A & B & D & _). eauto.
+Qed.
